@@ -24,7 +24,7 @@ func init() {
 		Gen:  genC10,
 		Exec: execC10,
 		Assumptions: []string{
-			"rules are generated for the seven request types (PUBLISH SUBSCRIBE UNSUBSCRIBE REGISTER UNREGISTER CALL CANCEL); YIELD/ERROR/GOODBYE are always allowed",
+			"rules are generated for PUBLISH SUBSCRIBE UNSUBSCRIBE REGISTER UNREGISTER CALL CANCEL YIELD ERROR GOODBYE; how the refusal of an ERROR or GOODBYE (not requests) is reported to the sender is not asserted, only that it has no effect",
 			"the 'scribble' action (authorizer modifies session details) cannot be reproduced in run B and is judged for robustness only (cases containing it skip the comparison of details-dependent filters)",
 		},
 	})
@@ -54,7 +54,7 @@ func genC10(t *rapid.T) *Case {
 	uris := []string{"a", "a.b", "b", "b.a", "a.a"}
 	var rules []AuthzRule
 	// one denial and one rewrite on different request types up front, then random rules
-	t1 := pick(t, []string{"PUBLISH", "SUBSCRIBE", "REGISTER", "CALL", "UNSUBSCRIBE", "UNREGISTER", "CANCEL"}, "t1")
+	t1 := pick(t, []string{"PUBLISH", "SUBSCRIBE", "REGISTER", "CALL", "UNSUBSCRIBE", "UNREGISTER", "CANCEL", "YIELD", "YIELD", "ERROR", "GOODBYE"}, "t1")
 	t2 := pick(t, []string{"PUBLISH", "SUBSCRIBE", "REGISTER", "CALL"}, "t2")
 	r1 := AuthzRule{Msg: t1, Act: pick(t, []string{"deny", "fail"}, "a1")}
 	if t1 == "PUBLISH" || t1 == "SUBSCRIBE" || t1 == "REGISTER" || t1 == "CALL" {
@@ -66,7 +66,7 @@ func genC10(t *rapid.T) *Case {
 	}
 	nr := uni(t, 5, "nrules")
 	for i := 0; i < nr; i++ {
-		r := AuthzRule{Msg: pick(t, []string{"PUBLISH", "SUBSCRIBE", "UNSUBSCRIBE", "REGISTER", "UNREGISTER", "CALL", "CANCEL", "PUBLISH", "CALL", "SUBSCRIBE"}, "rmsg"),
+		r := AuthzRule{Msg: pick(t, []string{"PUBLISH", "SUBSCRIBE", "UNSUBSCRIBE", "REGISTER", "UNREGISTER", "CALL", "CANCEL", "PUBLISH", "CALL", "SUBSCRIBE", "YIELD", "ERROR", "GOODBYE"}, "rmsg"),
 			Act: pick(t, []string{"deny", "deny", "fail", "rewrite", "rewrite", "allow", "scribble"}, "ract")}
 		hasURI := r.Msg == "PUBLISH" || r.Msg == "SUBSCRIBE" || r.Msg == "REGISTER" || r.Msg == "CALL"
 		if hasURI && pct(t, 70, "ruri") {
@@ -89,6 +89,12 @@ func genC10(t *rapid.T) *Case {
 	}
 	c.Realms = []RealmCfg{{URI: "r1", Anonymous: true, RequireLocalAuth: true, RequireLocalAuthz: rlz, Auths: []string{"static"}, Users: c10Users,
 		AllowDisclose: rapid.Bool().Draw(t, "ad"), Authz: &AuthzCfg{Rules: rules}}}
+	if pct(t, 25, "template") {
+		// the realm does not exist up front: the first HELLO creates it from the template
+		tmpl := c.Realms[0]
+		tmpl.URI = ""
+		c.Template, c.Realms = &tmpl, nil
+	}
 	c.Sess = sess
 	var callers, callees []int
 	for i := 0; i < n; i++ {
@@ -137,6 +143,12 @@ func msgTypeName(k string) string {
 		return "CALL"
 	case "cancel":
 		return "CANCEL"
+	case "yield":
+		return "YIELD"
+	case "error":
+		return "ERROR"
+	case "goodbye":
+		return "GOODBYE"
 	}
 	return ""
 }
@@ -152,7 +164,13 @@ func sessAuthID(s *SessCfg) string {
 
 func execC10(t *testing.T, c *Case, trace bool) Verdict {
 	v := Verdict{Kind: "ok", Prop: "C10"}
-	rc := c.Realms[0]
+	var rc RealmCfg
+	if len(c.Realms) > 0 {
+		rc = c.Realms[0]
+	} else {
+		rc = *c.Template
+		v.Stats.Label("realm_from_template")
+	}
 	table := rc.Authz
 	exempt := func(s int) bool {
 		tr := c.Sess[s].Transport
@@ -199,7 +217,13 @@ func execC10(t *testing.T, c *Case, trace bool) Verdict {
 	// build B
 	cb := *c
 	cb.Realms = append([]RealmCfg(nil), c.Realms...)
-	cb.Realms[0].Authz = nil
+	if len(cb.Realms) > 0 {
+		cb.Realms[0].Authz = nil
+	} else {
+		tb := *c.Template
+		tb.Authz = nil
+		cb.Template = &tb
+	}
 	cb.Ops = append([]Op(nil), c.Ops...)
 	for i := range cb.Ops {
 		switch decs[i].act {
@@ -281,6 +305,10 @@ func execC10(t *testing.T, c *Case, trace bool) Verdict {
 					req = m.Request
 				case *wamp.Cancel:
 					req = m.Request
+				case *wamp.Yield:
+					req = m.Request
+				case *wamp.Error:
+					req = m.Request
 				}
 			}
 		}
@@ -304,6 +332,18 @@ func execC10(t *testing.T, c *Case, trace bool) Verdict {
 		want := 1
 		if mtype == wamp.PUBLISH && !ack {
 			want = 0
+		}
+		if mtype == wamp.ERROR || mtype == wamp.GOODBYE {
+			// not requests: the statement does not say how their refusal is
+			// reported; whatever is, is taken out of the comparison
+			kept = kept[:0]
+			for _, m := range msgs {
+				if er, ok := m.(*wamp.Error); ok && er.Type == mtype && er.Error == wantURI {
+					continue
+				}
+				kept = append(kept, m)
+			}
+			want = nerr
 		}
 		if nerr != want {
 			return fail("denied %s req=%d of session %d (%s) was answered with %d ERROR{%s} messages, expected %d; session received %s", mtype, req, op.S, d.act, nerr, wantURI, want, recvString(msgs))
